@@ -161,6 +161,133 @@ def _locals_of(fn: ast.FunctionDef) -> Set[str]:
     return out
 
 
+def _is_callable_literal(e) -> bool:
+    if isinstance(e, ast.Lambda):
+        a = e.args
+        return not (a.vararg or a.kwarg or a.kwonlyargs or a.defaults or a.posonlyargs)
+    if isinstance(e, ast.Call) and ast.unparse(e.func) in ('partial', 'functools.partial') and e.args \
+            and not any(isinstance(x, ast.Starred) for x in e.args) and all(k.arg for k in e.keywords):
+        return True
+    return False
+
+
+def _only_called(helper: ast.FunctionDef, p: str) -> bool:
+    called = {id(c.func) for c in ast.walk(helper) if isinstance(c, ast.Call) and isinstance(c.func, ast.Name) and c.func.id == p}
+    return bool(called) and all(id(n) in called for n in ast.walk(helper) if isinstance(n, ast.Name) and n.id == p)
+
+
+class _BetaReduce(ast.NodeTransformer):
+    """f(args) with f bound to `lambda a, b: E` -> E[a := arg0, b := arg1];  f bound to partial(g, x, k=y) -> g(x, args, k=y)"""
+
+    def __init__(self, callables):
+        self.c = callables
+        self.failed = False
+
+    def visit_Call(self, node):
+        node = self.generic_visit(node)
+        if isinstance(node.func, ast.Name) and node.func.id in self.c:
+            f = self.c[node.func.id]
+            if isinstance(f, ast.Lambda):
+                params = [a.arg for a in f.args.args]
+                if node.keywords or len(node.args) != len(params) or any(isinstance(x, ast.Starred) for x in node.args):
+                    self.failed = True
+                    return node
+                body = copy.deepcopy(f.body)
+                sub = dict(zip(params, node.args))
+                # an argument expression is duplicated only when it is a plain name / constant
+                for pname, arg in sub.items():
+                    uses = sum(1 for n in ast.walk(body) if isinstance(n, ast.Name) and n.id == pname)
+                    if uses > 1 and not isinstance(arg, (ast.Name, ast.Constant)):
+                        self.failed = True
+                        return node
+
+                class S(ast.NodeTransformer):
+                    def visit_Name(s_, n):
+                        if n.id in sub and isinstance(n.ctx, ast.Load):
+                            return ast.copy_location(copy.deepcopy(sub[n.id]), n)
+                        return n
+                return ast.copy_location(S().visit(body), node)
+            # functools.partial(g, *fixed, **fixedkw)
+            g = f.args[0]
+            new = ast.Call(func=copy.deepcopy(g), args=[copy.deepcopy(x) for x in f.args[1:]] + node.args,
+                           keywords=[copy.deepcopy(k) for k in f.keywords] + node.keywords)
+            return ast.copy_location(new, node)
+        return node
+
+
+def _is_literal_pack(e) -> bool:
+    if isinstance(e, ast.Constant) and e.value is None:
+        return True
+    return isinstance(e, ast.Tuple) and bool(e.elts) and all(isinstance(x, (ast.Name, ast.Constant)) for x in e.elts)
+
+
+class _LiteralFolder(ast.NodeTransformer):
+    """uses of a parameter that is bound to None / a tuple display: `*p` -> the elements, `p[i]` -> element i, `p is (not) None` -> a
+    constant, `if <constant>` -> the live branch"""
+
+    def __init__(self, lit):
+        self.lit = lit
+        self.failed = False
+
+    def _lit(self, e):
+        return self.lit.get(e.id) if isinstance(e, ast.Name) else None
+
+    def visit_Call(self, node):
+        new_args = []
+        for a in node.args:
+            v = self._lit(a.value) if isinstance(a, ast.Starred) else None
+            if isinstance(v, ast.Tuple):
+                new_args += [copy.deepcopy(x) for x in v.elts]
+            else:
+                new_args.append(a)
+        node.args = new_args
+        return self.generic_visit(node)
+
+    def visit_Subscript(self, node):
+        v = self._lit(node.value)
+        if isinstance(v, ast.Tuple) and isinstance(node.slice, ast.Constant) and isinstance(node.slice.value, int) \
+                and -len(v.elts) <= node.slice.value < len(v.elts) and isinstance(node.ctx, ast.Load):
+            return ast.copy_location(copy.deepcopy(v.elts[node.slice.value]), node)
+        return self.generic_visit(node)
+
+    def visit_Compare(self, node):
+        v = self._lit(node.left)
+        if v is not None and len(node.ops) == 1 and isinstance(node.ops[0], (ast.Is, ast.IsNot)) \
+                and isinstance(node.comparators[0], ast.Constant) and node.comparators[0].value is None:
+            is_none = isinstance(v, ast.Constant)
+            return ast.copy_location(ast.Constant(value=is_none == isinstance(node.ops[0], ast.Is)), node)
+        return self.generic_visit(node)
+
+    def visit_If(self, node):
+        node.test = self.visit(node.test)
+        if isinstance(node.test, ast.Constant) and isinstance(node.test.value, bool):
+            live = node.body if node.test.value else node.orelse
+            out = []
+            for st in live:
+                r = self.visit(st)
+                out += r if isinstance(r, list) else [r]
+            return out or [ast.copy_location(ast.Pass(), node)]
+        node.body = self._stmts(node.body)
+        node.orelse = self._stmts(node.orelse)
+        return node
+
+    def _stmts(self, stmts):
+        out = []
+        for st in stmts:
+            r = self.visit(st)
+            out += r if isinstance(r, list) else [r]
+        return out
+
+
+def _fold_literals(body, literal):
+    f = _LiteralFolder(literal)
+    out = []
+    for st in body:
+        r = f.visit(st)
+        out += r if isinstance(r, list) else [r]
+    return out
+
+
 def _expand(call: ast.Call, helper: ast.FunctionDef, tag: str, at: ast.stmt):
     """statements to insert before `at`, and the expression that replaces the call (None for procedures); None if the actuals do
     not bind"""
@@ -194,11 +321,21 @@ def _expand(call: ast.Call, helper: ast.FunctionDef, tag: str, at: ast.stmt):
     mapping = {n: f'__{tag}_{n}' for n in _locals_of(helper) if not n.startswith('__o')}
     stored = {n.id for n in ast.walk(helper) if isinstance(n, ast.Name) and isinstance(n.ctx, (ast.Store, ast.Del))}
     pre: List[ast.stmt] = []
+    literal: Dict[str, ast.expr] = {}
+    callables: Dict[str, ast.expr] = {}
     for p in allp:
         if isinstance(bound[p], ast.Name) and p not in stored:
             # a parameter that is only read and receives a plain variable: use the caller's variable itself (no alias)
             mapping[p] = bound[p].id
             continue
+        if p not in stored and _is_callable_literal(bound[p]) and _only_called(helper, p):
+            # a lambda / functools.partial handed to a parameter that is only ever called: beta-reduced below
+            callables[mapping[p]] = bound[p]
+            continue
+        if p not in stored and _is_literal_pack(bound[p]):
+            # None / a tuple of plain variables and constants handed to a read-only parameter (`restrict=(descriptor, idx)` used as
+            # `*restrict`, `restrict is not None`): substituted and folded below, so that the pieces stay visible
+            literal[mapping[p]] = bound[p]
         st = ast.Assign(targets=[ast.Name(id=mapping[p], ctx=ast.Store())], value=bound[p])
         pre.append(st)
     body = copy.deepcopy(helper.body)
@@ -212,7 +349,22 @@ def _expand(call: ast.Call, helper: ast.FunctionDef, tag: str, at: ast.stmt):
     body = [rn.visit(s) for s in body]
     if ret_expr is not None:
         ret_expr = rn.visit(copy.deepcopy(ret_expr))
-    else:
+    if callables:
+        br = _BetaReduce(callables)
+        body = [br.visit(s) for s in body]
+        if ret_expr is not None:
+            ret_expr = br.visit(ret_expr)
+        if br.failed:
+            DEFAULTED.pop()
+            return None
+    if literal:
+        body = _fold_literals(body, literal)
+        if ret_expr is not None:
+            ret_expr = _LiteralFolder(literal).visit(ret_expr)
+        pre = [st for st in pre if not (isinstance(st, ast.Assign) and isinstance(st.targets[0], ast.Name) and st.targets[0].id in literal
+                                        and not any(isinstance(n, ast.Name) and n.id == st.targets[0].id
+                                                    for b in body + ([ret_expr] if ret_expr is not None else []) for n in ast.walk(b)))]
+    if ret_expr is None:
         ret_expr = ast.Constant(value=None)
     out = pre + body
     for s in out:
@@ -479,8 +631,41 @@ def _rebinds_free_names(inner: ast.FunctionDef, outer: ast.FunctionDef) -> bool:
     return any(isinstance(n, (ast.Nonlocal, ast.Global)) for n in ast.walk(inner))
 
 
+class _Idioms(ast.NodeTransformer):
+    """spellings of one operation brought to the form the rules know:  np.take(a, i) / a.take(i) -> a[i]  (axis=0 -> a[i],
+    axis=1 -> a[:, i]);  np.take_along_axis is left alone (a different operation)"""
+
+    def visit_Call(self, node):
+        node = self.generic_visit(node)
+        f = node.func
+        is_np = isinstance(f, ast.Attribute) and f.attr == 'take' and isinstance(f.value, ast.Name) and f.value.id in ('np', 'numpy')
+        is_m = isinstance(f, ast.Attribute) and f.attr == 'take' and not is_np
+        if not (is_np or is_m):
+            return node
+        args = list(node.args)
+        kw = {k.arg: k.value for k in node.keywords}
+        if set(kw) - {'axis', 'indices'} or any(isinstance(a, ast.Starred) for a in args):
+            return node
+        arr = args.pop(0) if is_np and args else (f.value if is_m else None)
+        idx = args.pop(0) if args else kw.get('indices')
+        axis = args.pop(0) if args else kw.get('axis')
+        if arr is None or idx is None or args:
+            return node
+        if axis is None or (isinstance(axis, ast.Constant) and axis.value in (0, None)):
+            sl = idx
+        elif isinstance(axis, ast.Constant) and axis.value == 1:
+            sl = ast.Tuple(elts=[ast.Slice(lower=None, upper=None, step=None), idx], ctx=ast.Load())
+        else:
+            return node
+        return ast.copy_location(ast.Subscript(value=arr, slice=sl, ctx=ast.Load()), node)
+
+
 def inline_new_helpers(tree: ast.Module, module: str) -> int:
     """returns the number of call sites expanded"""
+    for n in tree.body:
+        if isinstance(n, (ast.FunctionDef, ast.ClassDef)):
+            _Idioms().visit(n)
+    ast.fix_missing_locations(tree)
     frozen = frozen_functions()
     if module not in frozen:
         return 0                      # a new module: nothing is anchored in it
